@@ -188,6 +188,19 @@ def check_property(pid, tier='quick', seed=0, replay_only=None):
                 lines.append('UNDECIDED property=%s proof-internal obligation %s no longer holds (the proof needs repair) and no failing input was found on the real code; see %s' % (pid, oid, path))
         violations = [(o, m) for (o, m) in violations if o in confirmed]
         exit_code = 1 if violations else 2
+    # a unit the verifier could not take (lost anchor, construct outside the dialect, rlimit): the property
+    # is undecided for the verifier - but the unit's replay battery still executes the real code; a concrete
+    # failing input is reported as a violation (it is one), nothing else changes the UNDECIDED outcome
+    rescue = []
+    for u, r in results.items():
+        if r.status != 'ok':
+            from . import replay as RP
+            path, found = RP.make_replay(pid, u + '/*', ['unit undecided: ' + r.reason[:600]], {'text': 'whole replay battery of unit ' + u}, seed)
+            if found:
+                rescue.append(u)
+                lines.append('VIOLATION property=%s replay=%s' % (pid, path))
+    if rescue:
+        exit_code = 1
     if violations and undecided:
         for oid, msgs in violations:
             lines.append('UNDECIDED property=%s obligation %s fails, but the unit is undecided so it is not reported as a violation' % (pid, oid))
@@ -229,7 +242,7 @@ def check_property(pid, tier='quick', seed=0, replay_only=None):
         },
         'assumptions': entry.get('assumptions', []) + ['see coverage.trusted_base: every external_body/assume_specification/axiom/uninterpreted function, N3 rename, N6 havoc and N7 reduced struct of the generated files, found by mechanical scan'],
         'wall_s': round(time.time() - t0, 2),
-        'violations': len(violations) if not undecided else 0,
+        'violations': (len(violations) if not undecided else 0) + len(rescue),
     }
     # evidence/ is written only by runs against /repo itself; experiments on a scratch copy (VERIF_REPO) keep theirs apart
     evdir = os.path.join(VERIF, 'evidence') if R.REPO == '/repo' else os.path.join(R.WORK, 'evidence')
